@@ -115,12 +115,42 @@ def _b_array(v):
 
 
 def b_system(sp):
-    st = _b_array(sp["state"])
+    st = sp["state"]
+    st = st if (isinstance(st, dict) and "mode" in st) else _b_array(st)
     ch = sp["chemostats"]
     if sp.get("np") and ch is not None:
         ch = np.array(ch, dtype=np.int64)
-    return RDSystem(b_network(sp["network"]), b_space(sp["space"]), state=st, chemostats=ch,
-                    units_system=_us(sp["u"]))
+    ch_mode = ch["mode"] if isinstance(ch, dict) else None
+    st_mode = st["mode"] if isinstance(st, dict) else None
+    system = RDSystem(b_network(sp["network"]), b_space(sp["space"]), state=(None if st_mode else st),
+                      chemostats=(None if ch_mode else ch), units_system=_us(sp["u"]))
+    if ch_mode:
+        # maps defined relative to the one the species' flags generate
+        gen = [int(v) for v in system.chemostats]
+        if ch_mode == "zero":
+            system.chemostats = [0] * len(gen)
+        elif ch_mode == "reset":
+            system.reset_chemostats()
+        elif ch_mode == "one":
+            system.chemostats = [1] * len(gen)
+        elif ch_mode == "complement":
+            system.chemostats = [1 - v for v in gen]
+        elif ch_mode == "flip":
+            k = len(gen) // 2
+            system.chemostats = [(1 - v) if i == k else v for i, v in enumerate(gen)]
+        else:
+            raise ValueError(ch_mode)
+    if st_mode:
+        n = len(system.state)
+        if st_mode == "zero":
+            system.state = [0.0] * n
+        elif st_mode == "shifted":
+            # explicit values that differ from density x volume in every entry, in the units of the generated state
+            system.state = UnitArray([float(v) * 3 + PRIMES[i % len(PRIMES)] for i, v in enumerate(system.state.value)],
+                                     system.state.units)
+        else:
+            raise ValueError(st_mode)
+    return system
 
 
 def b_script(sp):
@@ -1768,6 +1798,43 @@ def _spaces(tier, seed):
                            "route": "multi:npy:%s:keep%s" % (how, ":text" if text else "")}
     sp.append(("multi-file trajectories (nested script -> system.json, system -> network / space / state / chemostats files, data.npy; sample times inline or external): 9 unit-system pairs x 3 trajectories x {absolute, relative} x {inline, external t_sample}",
                gen_traj_multi, 9 * 3 * 2 * 2, 12))
+
+    # chemostat map / state independent of what the species would regenerate ----------------------------
+    FLAGS = [False, True, {"a": True}, {"a": False, "default": True}]
+    CH_MODES = [None, "zero", "reset", "one", "complement", "flip"]
+    ST_MODES = [None, "shifted", "zero"]
+    SM_SYS = ["dict", "json", "abs", "rel", "multi:npy:abs:keep", "multi:txtL4:rel:keep"]
+    SM_SCR = ["dict", "json", "abs"]
+
+    def sysmap_spec(fi, ci, sti, spi, us):
+        nu, mu, su, yu = us
+        net = network_spec(3, 1, nu, mu)
+        net["species"][0]["chstt"] = FLAGS[fi]
+        net["species"][1]["chstt"] = False
+        net["species"][2]["chstt"] = {"b": True}
+        space = grid_spec(2, 1, 2, 1, 1, su) if spi == 0 else graph_spec(2, 2, 2, 2, su)
+        return {"network": net, "space": space, "u": yu,
+                "state": None if ST_MODES[sti] is None else {"mode": ST_MODES[sti]},
+                "chemostats": None if CH_MODES[ci] is None else {"mode": CH_MODES[ci]}}
+
+    def gen_sysmaps():
+        for fi in range(len(FLAGS)):
+            for ci in range(len(CH_MODES)):
+                for sti in range(len(ST_MODES)):
+                    for spi in (0, 1):
+                        us = [(0, 0, 0, 0), (1, 2, 1, 2)][(fi + ci + sti + spi) % 2]
+                        system = sysmap_spec(fi, ci, sti, spi, us)
+                        for r in SM_SYS:
+                            yield {"sub": "rt", "kind": "rdsystem", "route": r, "spec": system}
+                        script = script_spec(0, 1, 1, system, us[1], 1000 * seed + 13)
+                        for r in SM_SCR:
+                            yield {"sub": "rt", "kind": "rdscript", "route": r, "spec": script}
+                        yield {"sub": "rt", "kind": "rdtrajectory", "route": "abs", "separate_data": True,
+                               "spec": {"mode": "hand", "t": {"value": [0, 0.5, 1.5], "units": "min"}, "data_units": "mmol",
+                                        "engine_description": None, "engine_option": None, "cgmap": None,
+                                        "with_script": True, "script": script}}
+    sp.append(("system map and state vs species flags: chstt of a species in {false, true, per-environment dict without / with 'default'} x chemostat map in {generated default, all zero, reset_chemostats(), all one, complement of the default, one entry flipped} x state in {generated default, explicit values different from density x volume, all zero} x {grid, graph} x {system: dict, json, save/load absolute, relative, 2 multi-file layouts; inside a script: dict, json, file; inside a trajectory file}",
+               gen_sysmaps, 4 * 6 * 3 * 2 * 10, 30))
 
     # aliasing -----------------------------------------------------------------------------------------
     alias_cases = [{"sub": "aliasing", "base": b, "mode": m, "site": pth}
